@@ -148,4 +148,32 @@ theorem compileNis_unconnected (d : Desc) (g : Graph) (ids : Ids) (nd : Node) (h
     obtain ⟨err, he⟩ := compileNi_unconnected d g ids nd h
     rw [he] at hi; cases hi
 
+/-- **a protocol used for both roles**: once a protocol points one way (by an earlier endpoint or by its own
+    `direction`), listing it on the other side of an endpoint is refused -/
+theorem dirStep_conflict (d : Desc) (dirs : List (String × String)) (pn want v : String) (p : ProtDesc)
+    (hp : d.protocols.find? (·.name == pn) = some p)
+    (hcur : (match dirs.find? (·.1 == pn) with | some (_, v) => some v | none => p.direction) = some v)
+    (hne : (v == want) = false) : ∃ err, dirStep d dirs pn want = .error err := by
+  unfold dirStep
+  simp only [hp]
+  cases hf : dirs.find? (·.1 == pn) with
+  | none =>
+    simp only [hf] at hcur ⊢
+    rw [hcur]
+    simp only [hne, Bool.false_eq_true, if_false]
+    exact ⟨_, rfl⟩
+  | some pr =>
+    obtain ⟨a, b⟩ := pr
+    simp only [hf, Option.some.injEq] at hcur ⊢
+    subst hcur
+    simp only [hne, Bool.false_eq_true, if_false]
+    exact ⟨_, rfl⟩
+
+/-- … and a protocol name that no protocol carries is refused as well -/
+theorem dirStep_unknown (d : Desc) (dirs : List (String × String)) (pn want : String)
+    (hp : d.protocols.find? (·.name == pn) = none) : ∃ err, dirStep d dirs pn want = .error err := by
+  unfold dirStep
+  simp only [hp]
+  exact ⟨_, rfl⟩
+
 end FlooVerif.C10M
